@@ -79,7 +79,9 @@ def brute_force_optimum(jobs):
 class Check(PropertyCheck):
     ID = "C03"
     LEAN_MODULE = "JobShopProofs.Properties.C03"
-    THEOREMS = []
+    THEOREMS = ["JS.C03_solution_feasible", "JS.C03_schedule_accepted", "JS.C03_schedule_complete",
+                "JS.C03_feasible_is_solution", "JS.C03_solution_exists", "JS.C03_optimum", "JS.C03_le_dispatcher",
+                "JS.C03_job_bound", "JS.C03_machine_bound"]
     RULE = ("random non-flexible instances (classic, irregular, recirculation incl. consecutive same-machine operations, "
             "zero durations, machine-id gaps, single machine/job, ties): the real ORToolsSolver solves them; the "
             "CpModelProto it built (solver.model after solve) is printed canonically and compared with the Lean model's "
